@@ -848,3 +848,142 @@ def run(ctx: Context):
             r.require(bool(ok), cfc, cfc.loc(), "the node cache key %s does not separate the deep-immutable context from the "
                       "mutable one (%s / %s / %s): a node cached for one context is returned in the other" % (
                           key, sorted(t_vals), sorted(f_vals), loose))
+
+    # -- 8. UnknownNode: an alleged read-only / immutable cap never sits in the write slot -----------------
+    with ctx.rule("C16.8", "R3", "UnknownNode.__init__: a cap that the path taken found to carry the 'ro.'/'imm.' prefix is "
+                  "never stored in rw_uri; the same cap value never ends up in both rw_uri and ro_uri; a non-empty rw_uri is "
+                  "never paired with a ro_uri found to be alleged-immutable", expected=2) as r:
+        fn = idx.func("unknown:UnknownNode.__init__")
+        cfg = fn.cfg()
+        plain = N()
+        params = [p for p in fn.params if p != "self"]
+        SLOTS = ("self.rw_uri", "self.ro_uri")
+
+        def toks(vals, e):
+            """Parameter values the expression may *be* (copies only; a derived string is a different cap)."""
+            if isinstance(e, ast.Name):
+                return vals.get(e.id, frozenset())
+            if isinstance(e, ast.Attribute):
+                return vals.get(attr_path(e) or "", frozenset())
+            if isinstance(e, ast.BoolOp):
+                out = frozenset()
+                for v in e.values:
+                    out |= toks(vals, v)
+                return out
+            if isinstance(e, ast.IfExp):
+                return toks(vals, e.body) | toks(vals, e.orelse)
+            if isinstance(e, ast.NamedExpr):
+                return toks(vals, e.value)
+            return frozenset()
+
+        def bind(vals, t, v, new):
+            if isinstance(t, (ast.Tuple, ast.List)):
+                if isinstance(v, (ast.Tuple, ast.List)) and len(v.elts) == len(t.elts):
+                    for tt, vv in zip(t.elts, v.elts):
+                        bind(vals, tt, vv, new)
+                else:
+                    for tt in t.elts:
+                        bind(vals, tt, None, new)
+                return
+            p = t.id if isinstance(t, ast.Name) else attr_path(t)
+            if p:
+                new[p] = toks(vals, v) if v is not None else frozenset()
+
+        def add_fact(facts, f):
+            (k, kind, pol) = f
+            if (k, kind, not pol) in facts:
+                return None
+            return facts | {f}
+
+        def transfer(n, lab, nxt, st):
+            vals_t, facts = st
+            vals = dict(vals_t)
+            if n.kind == "test" and isinstance(lab, tuple) and lab[0] in ("T", "F"):
+                pol = lab[0] == "T"
+                pt = _prefix_test(F, fn, n, PREFIX)
+                subj = kind = None
+                if pt is not None:
+                    subj, kind = vals.get(pt[0], frozenset()), pt[1]
+                else:
+                    f = plain.cmp(n.ast, pol)
+                    if f and f[0] in ("truth", "false") and isinstance(n.ast, (ast.Name, ast.Attribute)):
+                        subj, kind = toks(vals, n.ast), "truth"
+                if subj is not None and len(subj) == 1:
+                    facts = add_fact(facts, (next(iter(subj)), kind, pol))
+                    if facts is None:
+                        return None         # contradicts what this path already established
+                    if kind != "truth" and pol:
+                        facts = add_fact(facts, (next(iter(subj)), "truth", True))
+                        if facts is None:
+                            return None
+            elif n.kind == "stmt" and isinstance(n.ast, (ast.Assign, ast.AnnAssign, ast.AugAssign)):
+                new = {}
+                if isinstance(n.ast, ast.Assign):
+                    for t in n.ast.targets:
+                        bind(vals, t, n.ast.value, new)
+                elif isinstance(n.ast, ast.AnnAssign):
+                    bind(vals, n.ast.target, n.ast.value, new)
+                else:
+                    bind(vals, n.ast.target, None, new)
+                vals.update(new)
+            elif n.kind in ("iter", "with", "except") or (n.kind == "stmt" and isinstance(n.ast, ast.Delete)):
+                for s_ in node_stores(n):
+                    vals[s_] = frozenset()
+            return (tuple(sorted((k, v) for k, v in vals.items() if v)), facts)
+
+        init = (tuple(sorted((p, frozenset([p])) for p in params)), frozenset())
+        visited, parent = explore(cfg, init, transfer)
+        r.count(len(visited))
+        n_store = 0
+        rw_nodes = [n for n in cfg.find(stores("self.rw_uri"))
+                    if not (isinstance(getattr(n.ast, "value", None), ast.Constant) and n.ast.value.value is None)]
+        for n in rw_nodes:
+            n_store += 1
+            r.site(fn, n.ast, "rw_uri store")
+        if not n_store:
+            raise AnchorVanished("UnknownNode.__init__ stores no rw_uri")
+        r.site(fn, None, "slots on return")
+        reported = set()
+        for (nid, st) in sorted(visited, key=lambda x: (x[0], str(x[1]))):
+            n = cfg.nodes[nid]
+            vals, facts = dict(st[0]), st[1]
+            if n in rw_nodes and isinstance(n.ast, (ast.Assign, ast.AnnAssign)) and n.ast.value is not None:
+                for t in sorted(toks(vals, n.ast.value)):
+                    for kind in ("imm", "ro"):
+                        if (t, kind, True) in facts and ("A", nid, t) not in reported:
+                            reported.add(("A", nid, t))
+                            w = witness(cfg, parent, (nid, st))
+                            r.violation(fn, fn.loc(n.ast), "UnknownNode stores %s in rw_uri on a path that found this cap (given "
+                                        "as %s) to carry the alleged %r prefix: an alleged read-only/immutable cap is kept as "
+                                        "the node's write cap (path: %s)" % (src(fn, n.ast.value), t, PREFIX[kind], w.brief()), w)
+            if n is cfg.exit:
+                rw, ro = vals.get(SLOTS[0], frozenset()), vals.get(SLOTS[1], frozenset())
+                both = sorted(rw & ro)
+                if both and "B" not in reported:
+                    reported.add("B")
+                    w = witness(cfg, parent, (nid, st))
+                    r.violation(fn, fn.loc(), "UnknownNode ends with the same cap (given as %s) in both rw_uri and ro_uri: the "
+                                "cap handed out as read-only is the write cap, or an alleged read-only cap is kept as write cap "
+                                "(path: %s)" % (", ".join(both), w.brief(20)), w)
+                for t in sorted(rw):
+                    if (t, "truth", True) not in facts:
+                        continue
+                    for t2 in sorted(ro):
+                        if t2 != t and (t2, "imm", True) in facts and "C" not in reported:
+                            reported.add("C")
+                            w = witness(cfg, parent, (nid, st))
+                            r.violation(fn, fn.loc(), "UnknownNode ends with a write cap (%s) next to a ro_uri (%s) found to "
+                                        "carry the alleged-immutable prefix: an object alleged immutable is given write "
+                                        "authority (path: %s)" % (t, t2, w.brief(20)), w)
+
+    # -- 9. from_string's result is a function of this call's context ------------------------------------
+    with ctx.rule("C16.9", "R6", "every value uri.from_string may return is produced by this call's context-guarded parse "
+                  "(K.init_from_string / UnknownURI, directly or through helpers given deep_immutable unchanged); a value "
+                  "remembered across calls is looked up and stored under a key that includes the context", expected=20) as r:
+        pw = parse_walk()
+        for (fn, n, what) in pw.leaves:
+            r.site(fn, n.ast, what)
+        r.count(len(pw.leaves))
+        for (fn, n, msg) in pw.lost:
+            r.violation(fn, fn.loc(n.ast), msg + ": a cap parsed in an ordinary context is handed to a caller that asked for "
+                        "a deep-immutable interpretation")
